@@ -245,10 +245,10 @@ def rng_range(rng, neg=True, p_range=0.4):
 
 
 def safe_copy_target(a, b):
-    """never send a COPY whose loop over size_t would not end (see the finding 'copy-range-runaway')"""
+    """any target range of moderate length, also one that ends at -1 or runs from a non-negative to a negative number
+    (the latter is empty). With a size_t loop variable in copy_entities such a COPY would not end: the harness runs under
+    an address-space limit and a time limit and the check reports that as a violation."""
     b2 = a if b is None else b
-    if b2 < 0 and (a >= 0 or b2 == -1):
-        return False
     return b2 - a < 40
 
 
@@ -313,8 +313,13 @@ def gen_block(rng, sh, ids, n_templates, weights):
             src = sh.pick(rng, rng.choice(KINDS) if k == "cell" else k, num(rng))
         for _ in range(20):
             a, b = rng_range(rng, p_range=0.5)
-            if rng.random() < 0.05:
+            r = rng.random()
+            if r < 0.05:
                 a, b = -rng.randint(1, 3), rng.randint(0, 3)      # range from a negative to a non-negative number
+            elif r < 0.09:
+                a, b = -rng.randint(3, 9), -1                     # range ending at -1
+            elif r < 0.12:
+                a, b = rng.randint(0, 5), -rng.randint(1, 4)      # from a non-negative to a negative number (empty)
             if safe_copy_target(a, b):
                 break
         else:
